@@ -23,6 +23,8 @@ def acc_ctor_post(s, lw):
     s = lw.methods(s)
     s, n = re.subn(r'\bA_LOAD\(v,', 'A_LOAD((*v_p),', s); lw.fire('ref:v', n)
     s, n = re.subn(r'\bacquire_guard\(v,', 'ACQUIRE_GUARD((*v_p),', s); lw.fire('ref:v', n)
+    # a member initialiser that reads a member initialised before it (MN: value_guard(acquire_guard(node_guard->value, order)))
+    s, n = re.subn(r'\bacquire_guard\((\w+)->', r'ACQUIRE_GUARD(self->\1->', s); lw.fire('init_reads_member', n)
     return s
 
 TRAIT_SOURCES = [
@@ -80,6 +82,77 @@ TRAIT_SOURCES = [
         post_subst=ref_params('acc'), must_fire={'method:reset': 1}),
   trait('nk_rehash', r'static hash_t rehash\(', 1, 'static hash_t nk_rehash(hash_t h)', must_fire={}),
 ]
+
+# ---- the three further storage modes.  Every function is lowered under the prefix of its mode and compiled only in that mode (ifdef);
+#      the functions inherited from bits::vyukov_hash_map_(non)trivial_key / _common are lowered once per mode that inherits them.
+VGP = [(r'typename VReclaimer::template concurrent_ptr<Value>::guard_ptr\(', 'GP_make(', 'value_guard_ptr_ctor')]
+VGP_NT = [(r'typename VReclaimer::template concurrent_ptr<Value>::guard_ptr\(', 'GP_make_nothrow(', 'value_guard_ptr_ctor')]
+GP_NT = [(r'typename storage_value_type::guard_ptr\(', 'GP_make_nothrow(', 'guard_ptr_ctor')]
+def mode_traits(px, W, cond, acc, vcell, ACC, keynode, bits_w):
+    """px: prefix, W: index of the specialisation in the file, acc/vcell: C types, ACC: macro prefix, keynode: key lives in the node,
+       bits_w: 0 = inherits vyukov_hash_map_trivial_key, 1 = vyukov_hash_map_nontrivial_key"""
+    def t(id, sig, which, c_sig, **kw):
+        return trait(px + '_' + id, sig, which, c_sig, ifdef=cond, **kw)
+    key_t = 'kkey_t'
+    L = [
+      t('compare_key', r'static bool compare_key\(', W,
+        'static _Bool %s_compare_key(_Bool AcquireAccessor, kcell_t* key_cell_p, %s* value_cell_p, kkey_t key, hash_t hash, %s* acc_p)' % (px, vcell, acc),
+        pre_subst=GP + VGP, may_throw=['GP_make'], post_subst=ref_params('key_cell', 'value_cell', 'acc')),
+      t('acc_ctor', r'accessor\(storage_value_type& v, std::memory_order order\)', W,
+        'static void %s_acc_ctor(%s* self, %s* v_p, int order)' % (px, acc, vcell), ctor=True, py_post=acc_ctor_post,
+        members=['node_guard'] if px == 'mn' else [], calls={'acquire_guard': 'ACQUIRE_GUARD'} if px == 'mn' else {}),
+      t('acquire', r'static accessor acquire\(storage_value_type& v, std::memory_order order\)', W,
+        'static %s %s_acquire(%s* v_p, int order)' % (acc, px, vcell), calls={'accessor': ACC + '_ACC'},
+        post_subst=[(ACC + r'_ACC\(v,', ACC + '_ACC(v_p,', 'ref:v')]),
+      t('reclaim', r'static void reclaim\(accessor&( a)?\)', W, 'static void %s_reclaim(%s* a_p)' % (px, acc),
+        methods={'reclaim': 'GP_reclaim'}, post_subst=ref_params('a')),
+      t('reclaim_internal', r'static void reclaim_internal\(accessor&( a)?\)', W, 'static void %s_reclaim_internal(%s* a_p)' % (px, acc),
+        methods={'reclaim': 'GP_reclaim'}, post_subst=ref_params('a')),
+      t('compare_trivial_key', r'static bool compare_trivial_key\(', bits_w,
+        'static _Bool %s_compare_trivial_key(kcell_t* key_cell_p, kkey_t key, hash_t hash)' % px, post_subst=ref_params('key_cell')),
+      t('compare_nontrivial_key', r'static bool compare_nontrivial_key\(', bits_w,
+        'static _Bool %s_compare_nontrivial_key(const %s* acc_p, kkey_t key)' % (px, acc), methods={'key': ACC + '_ACC_key'}, post_subst=ref_params('acc')),
+      t('reset', r'static void reset\(Accessor&& acc\)', 0, 'static void %s_reset(%s* acc_p)' % (px, acc), methods={'reset': ACC + '_ACC_reset'},
+        post_subst=ref_params('acc')),
+    ]
+    if bits_w == 0:
+        L.append(t('rehash', r'static hash_t rehash\(', 0, 'static hash_t %s_rehash(kkey_t k)' % px, subst=[(r'\bHash\{\}\((\w+)\)', r'XV_HASH(\1)', 'hash_call')]))
+    else:
+        L.append(t('rehash', r'static hash_t rehash\(', 1, 'static hash_t %s_rehash(hash_t h)' % px))
+    return L
+NEW_MODE_SOURCES = (
+  mode_traits('tn', 3, 'defined(XV_TN)', 'struct n_accessor', 'n_vcell', 'TN', False, 0) + [
+  trait('tn_store_item', r'static void store_item\(', 3,
+        'static void tn_store_item(_Bool AcquireAccessor, kcell_t* key_cell_p, n_vcell* value_cell_p, hash_t hash, kkey_t k, vval_t v, int order, struct n_accessor* acc_p)',
+        pre_subst=GP_NT + [(r'\bnew node\(', 'XV_NEW_NODE(', 'new_node')], may_throw=['XV_NEW_NODE'], post_subst=ref_params('key_cell', 'value_cell', 'acc'), ifdef='defined(XV_TN)'),
+  trait('tn_acc_reset', r'void reset\(\)', 2, 'static void tn_acc_reset(struct n_accessor* self)', members=['guard'], methods={'reset': 'GP_reset'}, ifdef='defined(XV_TN)'),
+  trait('tn_acc_arrow', r'Value\* operator->\(\) const noexcept', 2, 'static vval_t* tn_acc_arrow(const struct n_accessor* self)', members=['guard'], ifdef='defined(XV_TN)'),
+  trait('tn_acc_deref', r'Value& operator\*\(\) const noexcept', 2, 'static vval_t* tn_acc_deref(const struct n_accessor* self)', members=['guard'], ret_ref=True, ifdef='defined(XV_TN)'),
+  ] +
+  mode_traits('mt', 0, 'defined(XV_MT)', 'struct mt_accessor', 't_vcell', 'MT', False, 0) + [
+  trait('mt_store_item', r'static void store_item\(', 0,
+        'static void mt_store_item(_Bool AcquireAccessor, kcell_t* key_cell_p, t_vcell* value_cell_p, hash_t hash, kkey_t k, vval_t v, int order, struct mt_accessor* acc_p)',
+        pre_subst=GP_NT, post_subst=ref_params('key_cell', 'value_cell', 'acc'), ifdef='defined(XV_MT)'),
+  trait('mt_acc_reset', r'void reset\(\)', 0, 'static void mt_acc_reset(struct mt_accessor* self)', members=['guard'], methods={'reset': 'GP_reset'}, ifdef='defined(XV_MT)'),
+  trait('mt_acc_reclaim', r'void reclaim\(\)', 0, 'static void mt_acc_reclaim(struct mt_accessor* self)', members=['guard'], methods={'reclaim': 'GP_reclaim'}, ifdef='defined(XV_MT)'),
+  trait('mt_acc_arrow', r'Value\* operator->\(\) const noexcept', 0, 'static struct uobj* mt_acc_arrow(const struct mt_accessor* self)', members=['guard'], methods={'get': 'UGP_get'}, ifdef='defined(XV_MT)'),
+  ] +
+  mode_traits('mn', 1, 'defined(XV_MN)', 'struct mn_accessor', 'n_vcell', 'MN', True, 1) + [
+  trait('mn_store_item', r'static void store_item\(', 1,
+        'static void mn_store_item(_Bool AcquireAccessor, kcell_t* key_cell_p, n_vcell* value_cell_p, hash_t hash, kkey_t k, vval_t v, int order, struct mn_accessor* acc_p)',
+        pre_subst=GP_NT + VGP_NT + [(r'\bnew node\(', 'XV_NEW_NODE(', 'new_node')], may_throw=['XV_NEW_NODE'], post_subst=ref_params('key_cell', 'value_cell', 'acc'), ifdef='defined(XV_MN)'),
+  trait('mn_acc_key', r'const Key& key\(\) const', 0, 'static kkey_t mn_acc_key(const struct mn_accessor* self)', members=['node_guard'], ifdef='defined(XV_MN)'),
+  trait('mn_acc_reset', r'void reset\(\)', 1, 'static void mn_acc_reset(struct mn_accessor* self)', members=['node_guard', 'value_guard'], methods={'reset': 'GP_reset'}, ifdef='defined(XV_MN)'),
+  trait('mn_acc_arrow', r'Value\* operator->\(\) const noexcept', 1, 'static struct uobj* mn_acc_arrow(const struct mn_accessor* self)', members=['value_guard'], methods={'get': 'UGP_get'}, ifdef='defined(XV_MN)'),
+  trait('mn_acc_deref', r'Value& operator\*\(\) const noexcept', 1, 'static struct uobj* mn_acc_deref(const struct mn_accessor* self)', members=['value_guard'], methods={'get': 'UGP_get'}, ret_ref=True, ifdef='defined(XV_MN)'),
+  ])
+NK_EXTRA = [
+  trait('nk_acc_arrow', r'Value\* operator->\(\) const noexcept', 3, 'static vval_t* nk_acc_arrow(const struct n_accessor* self)', members=['guard'], ifdef='defined(XV_NT)'),
+  trait('nk_acc_deref', r'Value& operator\*\(\) const noexcept', 3, 'static vval_t* nk_acc_deref(const struct n_accessor* self)', members=['guard'], ret_ref=True, ifdef='defined(XV_NT)'),
+]
+for _t in TRAIT_SOURCES:
+    if _t['id'].startswith('nk_'): _t['ifdef'] = 'defined(XV_NODE_PAIR)'
+TRAIT_SOURCES = TRAIT_SOURCES + NK_EXTRA + NEW_MODE_SOURCES
 
 # ---------------------------------------------------------------------------------------------- the map functions
 MAPM = dict(BSM); MAPM.update({'buckets': 'BLK_buckets', 'acquire': 'GB_acquire', 'get': 'GB_get', 'unlock': 'UNL_unlock', 'disable': 'UNL_disable',
@@ -193,35 +266,41 @@ def uw(L, **loops):
     d = dict(unwind=NSLOT + L + 1 + 2, unwindset=['%s:%d' % (k.replace('__', '.'), v) for k, v in loops.items()])
     return d
 NSLOT = 3
+MODE_DEFS = {0: {}, 1: {'XV_NT': 1}, 'tn': {'XV_TN': 1}, 'mt': {'XV_MT': 1}, 'mn': {'XV_MN': 1}}
+MODE_NAME = {0: 'TRIVIAL', 1: 'NONTRIVIAL (key and value in a node)', 'tn': 'TN (trivial key, value in a node)', 'mt': 'MT (trivial key, managed_ptr value)',
+             'mn': 'MN (key in a node, managed_ptr value)'}
 def w_run(id, entry, L, nt, tiers, fn_loops, **kw):
     defs = {'XV_L': L}
-    if nt: defs['XV_NT'] = 1
+    defs.update(MODE_DEFS[nt])
     defs.update(kw.pop('defs', {}))
     return dict(uw(L, **fn_loops), id=id, entry=entry, defs=defs, tiers=tiers, cls='shape-complete',
-                note='bucket array 3 slots (from the header), extension chain <= %d, pool %d, %s storage' % (L, 4, 'NONTRIVIAL' if nt else 'TRIVIAL'), **kw)
+                note='bucket array 3 slots (from the header), extension chain <= %d, pool %d, %s storage' % (L, 4, MODE_NAME[nt]), **kw)
 def ex_loops(L): return {'vhm_do_extract_real__0': 1, 'vhm_do_extract_real__1': 1, 'vhm_do_extract_real__2': 4, 'vhm_do_extract_real__3': L + 2}
 def em_loops(L): return {'vhm_do_get_or_emplace__0': 4, 'vhm_do_get_or_emplace__1': L + 2, 'vhm_lock_bucket_real__0': 1}
 RUNS = []
 Q, T, QT = ['quick'], ['thorough'], ['quick', 'thorough']
+SFX = {0: 't', 1: 'n', 'tn': 'tn', 'mt': 'mt', 'mn': 'mn'}
 for L in (1, 2, 3):
-    for nt in (0, 1):
-        sfx = ('n' if nt else 't') + str(L)
-        RUNS.append(w_run('do_extract_' + sfx, 'h_do_extract', L, nt, QT if L == (1 if nt else 2) else T, ex_loops(L)))
+    for nt in (0, 1, 'tn', 'mt', 'mn'):
+        sfx = SFX[nt] + str(L)
+        RUNS.append(w_run('do_extract_' + sfx, 'h_do_extract', L, nt, QT if L == (2 if nt == 0 else 1) else T, ex_loops(L)))
         RUNS.append(w_run('erase_' + sfx, 'h_erase', L, nt, QT if L == 1 else T, ex_loops(L)))
         RUNS.append(w_run('extract_' + sfx, 'h_extract', L, nt, QT if L == 1 else T, ex_loops(L)))
         RUNS.append(w_run('emplace_' + sfx, 'h_emplace', L, nt, QT if L == 1 else T, em_loops(L)))
 RUNS.append(w_run('alloc', 'h_alloc', 2, 0, QT, {'vhm_allocate_extension_item_real__0': 3, 'vhm_allocate_extension_item_real__1': 3, 'eb_acquire_lock__0': 1, 'eb_acquire_lock__1': 1}))
 RUNS.append(w_run('free', 'h_free', 2, 0, QT, {'eb_acquire_lock__0': 1, 'eb_acquire_lock__1': 1}))
-for nt in (0, 1):
-    sfx = 'n' if nt else 't'
+for nt in (0, 1, 'tn', 'mt', 'mn'):
+    sfx = SFX[nt]
     RUNS.append(dict(w_run('get_int_' + sfx, 'h_get_int', 1, nt, QT, {'vhm_try_get_value_int__0': 4}), mode='INT', cls='unbounded',
-                     note='retry loop and extension-chain loop cut by invariants RETRY / CHAIN; environment = any writers (rely: type invariant only); %s storage' % ('NONTRIVIAL' if nt else 'TRIVIAL')))
+                     note='retry loop and extension-chain loop cut by invariants RETRY / CHAIN; environment = any writers (rely: type invariant only); %s storage' % MODE_NAME[nt]))
     for L, tiers in ((2, QT), (3, T)):
         RUNS.append(dict(w_run('get_solo_%s%d' % (sfx, L), 'h_get_seq', L, nt, tiers, {'vhm_try_get_value__0': 1, 'vhm_try_get_value__2': 1, 'vhm_try_get_value__3': 1, 'vhm_try_get_value__5': 1, 'vhm_try_get_value__1': 4, 'vhm_try_get_value__4': L + 1}),
                          mode='SOLO', unwind_obligation='vhm.get.terminates', flags=['--object-bits', '10']))    # (a reader that does loop needs > 2^8 objects before the unwinding assertion is reached)
+    RUNS.append(w_run('acc_' + sfx, 'h_acc', 1, nt, QT, {}))
 RUNS.append(dict(w_run('lock_int', 'h_lock_int', 1, 0, QT, {}), mode='INT', cls='unbounded', note='spin loop cut by invariant LOCK; environment: other threads lock/unlock/modify the bucket at will'))
-for L, nt, tiers in ((1, 0, QT), (1, 1, QT), (2, 0, T), (2, 1, T)):
-    RUNS.append(dict(w_run('do_grow_%s%d' % ('n' if nt else 't', L), 'h_do_grow', L, nt, tiers, {}), note='one old bucket (3 slots + chain <= %d) rehashed into two new buckets; allocate_block is a stub' % L))
+for L, nt, tiers in ((1, 0, QT), (1, 1, QT), (1, 'tn', T), (1, 'mt', T), (1, 'mn', T),   # (the new modes share the rehash text of T / N)
+                      (2, 0, T), (2, 1, T), (2, 'tn', T), (2, 'mt', T), (2, 'mn', T)):
+    RUNS.append(dict(w_run('do_grow_%s%d' % (SFX[nt], L), 'h_do_grow', L, nt, tiers, {}), note='one old bucket (3 slots + chain <= %d) rehashed into two new buckets; allocate_block is a stub; %s storage' % (L, MODE_NAME[nt])))
 RUNS.append(dict(w_run('grow_int', 'h_grow_int', 1, 0, QT, {}), mode='INT', cls='unbounded', note='wait loop cut by invariant WAIT; environment: another thread may hold / release the resize lock and use the bucket once it is released'))
 RUNS.append(w_run('grow_t', 'h_grow', 1, 0, ['quick', 'thorough'], {'vhm_grow_real__0': 1}))
 
@@ -232,8 +311,10 @@ UNIT = dict(
   ctypes={'bucket': 'bucket_t', 'bucket_state': 'bstate_t', 'block': 'block_t', 'extension_item': 'extension_item', 'extension_bucket': 'extension_bucket',
           'guarded_block': 'guarded_block', 'hash_t': 'hash_t', 'accessor': 'accessor', 'key_type': 'kkey_t', 'Key': 'kkey_t', 'value_type': 'vval_t', 'Value': 'vval_t',
           'unlocker': 'struct unlocker'},
-  drops='templates; Key/Value are opaque 64-bit words compared only by ==; two storage modes compiled from the real traits text: TRIVIAL (traits<.., true, true>) and '
-        'NONTRIVIAL (-DXV_NT, traits<.., false, *>, key cell = hash, node on the heap); hash{}(key) is an uninterpreted symbolic function; guarded_block/guard_ptr are raw pointers '
+  drops='templates; Key/Value are opaque words compared only by ==; ALL FIVE storage modes (specialisations of vyukov_hash_map_traits) are compiled from their real text, one per run configuration: '
+        'TRIVIAL (traits<.., true, true>), NONTRIVIAL (-DXV_NT, traits<.., false, *>, key cell = hash, pair node on the heap), TN (-DXV_TN, traits<.., true, false>: value in a heap node), '
+        'MT (-DXV_MT, traits<Key, managed_ptr<Value,R>, .., true, true>: value cell = Value*), MN (-DXV_MN, traits<Key, managed_ptr<Value,R>, .., false, true>: node{key, concurrent_ptr<Value>}, two guards); '
+        'the trait functions of the other modes are #if\'ed out of lowered.h; hash{}(key) is an uninterpreted symbolic function; guarded_block/guard_ptr are raw pointers '
         '(the reclaimer contracts are other units); backoff dropped; Factory/Callback template arguments are harness hooks (the emplace/get_or_emplace(_lazy) wrappers only build lambdas); '
         'destructor calls of the RAII local `unlocker` are made explicit by the unit-local rule raii() (before every return / exceptional exit / backward goto after its declaration), '
         'try/catch and throwing argument evaluation by try_catch()/throw_checks() in vhm_rules.py; unlocker::enabled default member initialiser is read as a constant and applied in the constructor',
@@ -244,6 +325,8 @@ UNIT = dict(
     'stub allocate_block: returns null or a zeroed block with 2n buckets whose extension pool is all free and not smaller than the old one (operator new + memset + list construction not lowered)',
     'stubs guard_ptr/acquire_guard/new node: raw pointers; constructing a guard_ptr in compare_key may throw (hazard pointer exhaustion), in store_item it is assumed not to (the fresh node would leak - outside C10); guard_ptr::reclaim of an empty guard is a null dereference (true of every xenium reclaimer)',
     'allocate/free_extension_item are contract stubs in the writer runs; the contracts are proved for the real text by runs alloc / free (extension items per extension bucket: 2 instead of 10, a shape parameter)',
+    'managed_ptr modes (MT, MN): the Value objects stored under different keys are distinct, non-null objects and the object being inserted is not yet in the map (the map retires the Value object on erase: storing one object twice, or a null pointer, is a client error)',
+    'MT accessor::operator* (`Value& operator*() const noexcept { return guard.get(); }`, traits.hpp:74) does not compile when instantiated (Value* returned as Value&) and is not under contract; nothing in the repository instantiates it',
     'Key/Value are 16-bit words standing for any type: the code only copies them, compares keys with == and hashes keys; hash{}(key) is an uninterpreted function (arbitrary collisions)',
     'INT mode is sequentially consistent; memory orders are checked only as far as the sync obligations vhm.sync.release / vhm.sync.acquire state',
   ],
@@ -269,6 +352,7 @@ UNIT = dict(
     'vhm.get.seq_lookup': dict(deciding=True, text='without interference try_get_value returns true with the stored value iff the key is in the bucket (a slot under a delete marker is skipped), whether or not a writer holds the lock; it writes nothing'),
     'vhm.get.absent_validated': dict(deciding=True, text='[INT] try_get_value returns false only directly after a state load that still shows the version of the iteration\'s first state load, having examined every slot occupied at that load and followed the chain to null; the accessor is untouched'),
     'vhm.sync.acquire': dict(deciding=True, text='sync precondition: the first state load of an iteration, the value loads and the head/next loads of try_get_value are acquire-or-stronger'),
+    'vhm.acc.names_item': dict(deciding=True, text='traits::acquire(cell, order) loads the value cell once with that order and yields an accessor that names the item of that cell (its node / its Value object); operator->, operator* and key() give that item\'s value and key; reset empties the accessor; accessor::reclaim (managed_ptr) retires the Value object exactly once; none of this changes the map'),
     'vhm.erase.retires_only_removed': dict(deciding=True, text='erase/extract retire a heap node iff they removed an item, and then exactly the node of the removed item, once; a guard is never reclaimed empty'),
     'vhm.ops.unlock': dict(deciding=True, text='every exit (exceptional ones included) leaves the bucket lock clear and the lock is released exactly once'),
     'vhm.ops.frame': dict(deciding=True, text='an operation that does not find/insert its key changes nothing; no operation touches another bucket'),
@@ -278,5 +362,5 @@ UNIT = dict(
   replays={'vhm.erase.retires_only_removed': dict(src='replay_ops.cpp'), 'vhm.extract.iff_present': dict(src='replay_ops.cpp'),
            'vhm.emplace.iff_absent': dict(src='replay_ops.cpp'), 'vhm.get.terminates': dict(src='replay_ops.cpp'), 'vhm.get.seq_lookup': dict(src='replay_ops.cpp')},
   loop_obligation={'RETRY': 'vhm.get.validated', 'CHAIN': 'vhm.get.validated', 'LOCK': 'vhm.lock_bucket.acquired', 'WAIT': 'vhm.grow.resize_lock'},
-  canaries=['alloc.all_empty', 'alloc.item', 'alloc.no_extension_buckets', 'do_grow.array_only', 'do_grow.bad_alloc', 'do_grow.with_chain', 'emplace.array', 'emplace.extension', 'emplace.factory_threw', 'emplace.first_extension', 'emplace.found_array', 'emplace.found_chain', 'emplace.grow_retry', 'emplace.grow_threw', 'emplace.new_threw_with_extension_item', 'emplace.threw_with_extension_item', 'erase.absent', 'erase.absent_collision', 'erase.removed', 'extract.absent', 'extract.absent_collision', 'extract.array_last', 'extract.array_move_last', 'extract.array_with_chain', 'extract.chain_first', 'extract.chain_later', 'extract.empty_bucket', 'extract.threw', 'extract_api.absent', 'extract_api.absent_collision', 'extract_api.removed', 'free.done', 'get_int.false', 'get_int.true_array', 'get_int.true_chain', 'get_seq.false', 'get_seq.false_collision_in_chain', 'get_seq.true_array', 'get_seq.true_chain', 'grow.done', 'grow.threw', 'grow_int.waited', 'grow_int.resized', 'lock_int.acquired'],
+  canaries=['acc.done', 'extract.threw_guard', 'alloc.all_empty', 'alloc.item', 'alloc.no_extension_buckets', 'do_grow.array_only', 'do_grow.bad_alloc', 'do_grow.with_chain', 'emplace.array', 'emplace.extension', 'emplace.factory_threw', 'emplace.first_extension', 'emplace.found_array', 'emplace.found_chain', 'emplace.grow_retry', 'emplace.grow_threw', 'emplace.new_threw_with_extension_item', 'emplace.threw_with_extension_item', 'erase.absent', 'erase.absent_collision', 'erase.removed', 'extract.absent', 'extract.absent_collision', 'extract.array_last', 'extract.array_move_last', 'extract.array_with_chain', 'extract.chain_first', 'extract.chain_later', 'extract.empty_bucket', 'extract.threw', 'extract_api.absent', 'extract_api.absent_collision', 'extract_api.removed', 'free.done', 'get_int.false', 'get_int.true_array', 'get_int.true_chain', 'get_seq.false', 'get_seq.false_collision_in_chain', 'get_seq.true_array', 'get_seq.true_chain', 'grow.done', 'grow.threw', 'grow_int.waited', 'grow_int.resized', 'lock_int.acquired'],
 )
